@@ -366,6 +366,7 @@ func (fg *FG) alloc(st *State, x *ssa.Alloc) {
 			h := fg.heap(st, fam, srt)
 			fg.setHeap(st, fam, fmt.Sprintf("(store %s %s %s)", h, r, fg.sorts.zero(s.Field(i).Type())))
 		}
+		fg.ghostDefaults(st, r)
 		n := fg.define(fg.valName(x), "Int", r)
 		fg.vals[x] = Val{T: n, Ty: x.Type()}
 		return
@@ -792,4 +793,24 @@ func (fg *FG) inAnyLoop(b *ssa.BasicBlock) (int, bool) {
 		}
 	}
 	return 0, false
+}
+
+// ghostDefaults initialises the "any" ghost fields that declare a default on a freshly allocated object.
+func (fg *FG) ghostDefaults(st *State, r string) {
+	for _, k := range sortedKeys(fg.g.ct.GhostDefaults) {
+		if !strings.HasPrefix(k, "any.") {
+			continue
+		}
+		name := strings.TrimPrefix(k, "any.")
+		fam := "G_any_" + sanitize(name)
+		env := &Env{fg: fg, vars: map[string]Val{}, st: st}
+		t, srt := env.resolveType(fg.g.ct.GhostFields[k])
+		if t != nil {
+			srt = fg.sorts.sortOf(t)
+			fg.heapTy[fam] = t
+		}
+		fg.heapSort[fam] = "(Array Int " + srt + ")"
+		h := fg.heap(st, fam, "")
+		fg.setHeap(st, fam, fmt.Sprintf("(store %s %s %s)", h, r, fg.g.ct.GhostDefaults[k]))
+	}
 }
